@@ -5,7 +5,7 @@ import "verif/internal/eng"
 func init() {
 	register(&Property{
 		ID: "C06",
-		Explanation: "Decides writer/reader agreement of the pack header format and the bounds guards: (type-byte-table) makeHeader and parseHeaderEntry are evaluated statically for every abstract entry (blob type × compressed?) and every first byte: the byte written for (type, compressed) is mapped back to the same type, the same presence of the uncompressed-length field and the matching advance (plainEntrySize/entrySize); bytes the writer never produces are rejected, an invalid blob type writes nothing; (entry-size) the bytes appended per entry (from the static array types of the appended operands) equal the evaluated plainEntrySize/entrySize; (header-limits) MaxHeaderEntries*entrySize+headerSize <= MaxHeaderSize (tight), headerSize == 4+crypto.Extension, minFileSize; (parse-guards) every slicing/indexing of the input in parseHeaderEntry lies behind len(p) >= plainEntrySize, the uncompressed-length read behind len(p) >= entrySize, readRecords slices/returns only after all four header-length range checks, readHeader checks minFileSize first; (verify-before-store) Finalize writes the header only after verifyHeader re-decoded it; (list-errors) errors of pack.List are propagated at every call site; (header-bounds-agree) the constant limit readRecords applies to the header length field is at least crypto.Extension + MaxHeaderEntries*entrySize — the largest header a Packer can write — and stays within MaxHeaderSize, and MaxHeaderEntries is the largest count that fits (added after a seeded change that subtracted the wrong constant, so that a full pack could no longer be listed); (compressed-entry-nonzero) makeHeader marks an entry as compressed exactly by UncompressedLength != 0 and parseHeaderEntry returns success for a compressed-typed entry only behind a non-zero uncompressed length — the genuine defect found here (such an entry was listed as an uncompressed blob and the header size derived from the listing disagreed with the header read) is fixed. Not decided: offsets/lengths of a listing for arbitrary blob sequences.",
+		Explanation: "Decides writer/reader agreement of the pack header format and the bounds guards: (type-byte-table) makeHeader and parseHeaderEntry are evaluated statically for every abstract entry (blob type × compressed?) and every first byte: the byte written for (type, compressed) is mapped back to the same type, the same presence of the uncompressed-length field and the matching advance (plainEntrySize/entrySize); bytes the writer never produces are rejected, an invalid blob type writes nothing; (entry-size) the bytes appended per entry (from the static array types of the appended operands) equal the evaluated plainEntrySize/entrySize; (header-limits) MaxHeaderEntries*entrySize+headerSize <= MaxHeaderSize (tight), headerSize == 4+crypto.Extension, minFileSize; (parse-guards) every slicing/indexing of the input in parseHeaderEntry lies behind len(p) >= plainEntrySize, the uncompressed-length read behind len(p) >= entrySize, readRecords slices/returns only after all four header-length range checks, readHeader checks minFileSize first; (verify-before-store) Finalize writes the header only after verifyHeader re-decoded it; (list-errors) errors of pack.List are propagated at every call site; (header-bounds-agree) the constant limit readRecords applies to the header length field is at least crypto.Extension + MaxHeaderEntries*entrySize — the largest header a Packer can write — and stays within MaxHeaderSize, and MaxHeaderEntries is the largest count that fits (added after a seeded change that subtracted the wrong constant, so that a full pack could no longer be listed); (compressed-entry-nonzero) makeHeader marks an entry as compressed exactly by UncompressedLength != 0 and parseHeaderEntry returns success for a compressed-typed entry only behind a non-zero uncompressed length — the genuine defect found here (such an entry was listed as an uncompressed blob and the header size derived from the listing disagreed with the header read) is fixed. (eager-read-suffices) readHeader hands out the bytes of its first, fixed-size read as the header only behind `c <= max` with c the header length that very read reported and max the size it was asked for, and the second read is given exactly c — a decision in rounded entry counts returns a cut-off header for mixed compressed/uncompressed packs (added after a seeded change). (list-checks-blob-area) List reports offsets as running sums of the entry lengths but never compares that sum plus the header size with the size of the file, so a pack that lost or gained bytes in front of its header is listed without error and with wrong offsets — a counterexample to 'any truncated, extended pack is rejected', listed as a known finding (List is also used on readers holding only the tail of a pack, so the comparison is not a small repair; check and prune compare sizes one level up). Not decided: offsets/lengths of a listing for arbitrary blob sequences.",
 		Assumptions: commonAssumptions,
 		Technique:   "static analysis: specialised path evaluation of writer and reader tables + constant evaluation + CFG edge cuts (go/ssa)",
 		Run: func(c *eng.Ctx) {
@@ -16,9 +16,13 @@ func init() {
 			c.Floor("list-errors", 4, 4)
 			ruleHeaderBoundsAgree(c)
 			ruleCompressedEntryNonZero(c)
+			ruleEagerReadSuffices(c)
+			ruleListChecksBlobArea(c)
 		},
 		AllConfigs: false,
 		Controls: []Control{
+			{Name: "eager-read-judged-by-a-constant", File: "internal/repository/pack/pack.go",
+				Old: "	if c <= eagerSize {\n", New: "	if c <= eagerSize+int(entrySize) {\n", Rule: "eager-read-suffices"},
 			{Name: "compressed-entry-with-zero-length-accepted", File: "internal/repository/pack/pack.go",
 				Old: "		if b.UncompressedLength == 0 {", New: "		if b.UncompressedLength == 0 && b.Length == 0 {", Rule: "compressed-entry-nonzero"},
 			{Name: "reader-limit-below-largest-written-header", File: "internal/repository/pack/pack.go",
